@@ -121,13 +121,45 @@ func (c *UContract) typeSrc(t *UType) string {
 	return c.bare(t)
 }
 
+// closure returns the interfaces the declaration conforms to, directly or through
+// interface inheritance (sorted).
+func (c *UContract) closure(d *UDecl) []string {
+	seen := map[string]bool{}
+	var walk func(names []string)
+	walk = func(names []string) {
+		for _, n := range names {
+			if seen[n] {
+				continue
+			}
+			seen[n] = true
+			if id := c.decl(n); id != nil {
+				walk(id.Conforms)
+			}
+		}
+	}
+	walk(d.Conforms)
+	var out []string
+	for n := range seen {
+		out = append(out, n)
+	}
+	sort.Strings(out)
+	return out
+}
+
+func (c *UContract) conformsTo(d *UDecl, iface string) bool {
+	for _, n := range c.closure(d) {
+		if n == iface {
+			return true
+		}
+	}
+	return false
+}
+
 // implOf returns a composite conforming to the interface (the first one).
 func (c *UContract) implOf(iface string) *UDecl {
 	for _, d := range c.Decls {
-		for _, cf := range d.Conforms {
-			if cf == iface && (d.Kind == "struct" || d.Kind == "resource") {
-				return d
-			}
+		if (d.Kind == "struct" || d.Kind == "resource") && c.conformsTo(d, iface) {
+			return d
 		}
 	}
 	return nil
@@ -238,10 +270,16 @@ func (c *UContract) Source(withChk bool) string {
 	}
 	for _, d := range c.Decls {
 		switch d.Kind {
-		case "sinterface":
-			fmt.Fprintf(&b, "    access(all) struct interface %s {}\n", d.Name)
-		case "rinterface":
-			fmt.Fprintf(&b, "    access(all) resource interface %s {}\n", d.Name)
+		case "sinterface", "rinterface":
+			kw := "struct"
+			if d.Kind == "rinterface" {
+				kw = "resource"
+			}
+			conf := ""
+			if len(d.Conforms) > 0 {
+				conf = ": " + strings.Join(d.Conforms, ", ")
+			}
+			fmt.Fprintf(&b, "    access(all) %s interface %s%s {}\n", kw, d.Name, conf)
 		case "enum":
 			fmt.Fprintf(&b, "    access(all) enum %s: %s {", d.Name, d.RawType)
 			for _, cs := range d.Cases {
@@ -366,6 +404,16 @@ func (c *UContract) randField(ch Chooser, upto int, allowRes bool) UField {
 func GenUContract(ch Chooser, name string) *UContract {
 	c := &UContract{Name: name}
 	c.Decls = append(c.Decls, &UDecl{Kind: "sinterface", Name: "SI"}, &UDecl{Kind: "rinterface", Name: "RI"})
+	// interface inheritance: SI2: SI and RI2: RI (most of the time)
+	si2 := &UDecl{Kind: "sinterface", Name: "SI2"}
+	ri2 := &UDecl{Kind: "rinterface", Name: "RI2"}
+	if !Chance(ch, "flat-si", 1, 4) {
+		si2.Conforms = []string{"SI"}
+	}
+	if !Chance(ch, "flat-ri", 1, 4) {
+		ri2.Conforms = []string{"RI"}
+	}
+	c.Decls = append(c.Decls, si2, ri2)
 	ne := 1 + ch.Intn("enums", 2)
 	for i := 0; i < ne; i++ {
 		d := &UDecl{Kind: "enum", Name: c.fresh("E"), RawType: "UInt8"}
@@ -384,12 +432,12 @@ func GenUContract(ch Chooser, name string) *UContract {
 		if kind == "struct" {
 			d.Name = c.fresh("S")
 			if i == 0 || Chance(ch, "conforms", 1, 2) {
-				d.Conforms = []string{"SI"}
+				d.Conforms = []string{[]string{"SI", "SI2", "SI2"}[ch.Intn("iface", 3)]}
 			}
 		} else {
 			d.Name = c.fresh("R")
 			if Chance(ch, "conforms", 1, 2) {
-				d.Conforms = []string{"RI"}
+				d.Conforms = []string{[]string{"RI", "RI2", "RI2"}[ch.Intn("iface", 3)]}
 			}
 		}
 		upto := len(c.Decls)
@@ -410,6 +458,7 @@ func GenUContract(ch Chooser, name string) *UContract {
 var MutationKinds = []string{
 	"field-add", "field-remove", "field-retype", "field-retype-subtle", "field-reorder", "field-rename", "field-access", "field-let-var",
 	"decl-add", "decl-remove", "decl-remove-pragma", "conformance-add", "conformance-remove",
+	"iface-inherit-remove", "iface-inherit-add",
 	"enum-case-append", "enum-case-insert", "enum-case-remove", "enum-case-swap", "enum-rawtype", "kind-change",
 	"contract-field-add", "contract-field-remove", "contract-field-retype",
 }
@@ -515,6 +564,8 @@ func (c *UContract) Mutate(ch Chooser) string {
 		switch k {
 		case "field-retype-subtle":
 			weights[i] = 8
+		case "iface-inherit-remove":
+			weights[i] = 5
 		case "contract-field-retype", "enum-case-swap", "enum-case-insert", "conformance-remove":
 			weights[i] = 3
 		default:
@@ -604,7 +655,7 @@ func (c *UContract) Mutate(ch Chooser) string {
 			// inside other values: removing that type (which #removedType permits by
 			// design) would make those unreadable, which is not what C27 is about
 			embedded := false
-			for _, cf := range d.Conforms {
+			for _, cf := range c.closure(d) {
 				if c.refsIface(cf) && c.implOf(cf) == d {
 					embedded = true
 				}
@@ -622,11 +673,28 @@ func (c *UContract) Mutate(ch Chooser) string {
 		if kind == "decl-remove-pragma" {
 			c.Removed = append(c.Removed, d.Name)
 		}
+	case "iface-inherit-remove":
+		var cand []*UDecl
+		for _, d := range c.Decls {
+			if (d.Kind == "sinterface" || d.Kind == "rinterface") && len(d.Conforms) > 0 {
+				cand = append(cand, d)
+			}
+		}
+		if len(cand) == 0 {
+			return ""
+		}
+		cand[ch.Intn("decl", len(cand))].Conforms = nil
+	case "iface-inherit-add":
+		d := c.decl([]string{"SI2", "RI2"}[ch.Intn("which", 2)])
+		if d == nil || len(d.Conforms) > 0 {
+			return ""
+		}
+		d.Conforms = []string{strings.TrimSuffix(d.Name, "2")}
 	case "conformance-add":
 		d := pickComp()
-		want := "SI"
+		want := []string{"SI", "SI2"}[ch.Intn("iface", 2)]
 		if d.Kind == "resource" {
-			want = "RI"
+			want = "R" + want[1:]
 		}
 		for _, cf := range d.Conforms {
 			if cf == want {
@@ -645,13 +713,7 @@ func (c *UContract) Mutate(ch Chooser) string {
 			return ""
 		}
 		d := cand[ch.Intn("decl", len(cand))]
-		iface := d.Conforms[0]
 		d.Conforms = d.Conforms[1:]
-		// keep the program well-typed: an interface-typed field needs an implementation
-		if c.implOf(iface) == nil && c.refsIface(iface) {
-			d.Conforms = append([]string{iface}, d.Conforms...)
-			return ""
-		}
 	case "enum-case-append":
 		es := c.enums()
 		if len(es) == 0 {
@@ -731,11 +793,14 @@ func (c *UContract) Mutate(ch Chooser) string {
 			return ""
 		}
 		f := &c.Fields[ch.Intn("field", len(c.Fields))]
+		nt := c.randType(ch, len(c.Decls), true, 0)
 		if Chance(ch, "subtle", 1, 2) {
-			f.Type = c.subtle(ch, f.Type)
-		} else {
-			f.Type = c.randType(ch, len(c.Decls), true, 0)
+			nt = c.subtle(ch, f.Type)
 		}
+		if c.bare(nt) == c.bare(f.Type) {
+			return ""
+		}
+		f.Type = nt
 	}
 	// any field that refers to a declaration which no longer exists (or lost its
 	// last implementation) makes the program ill-typed: drop such mutations
@@ -802,7 +867,7 @@ func (c *UContract) wellFormed() bool {
 		}
 		for _, cf := range d.Conforms {
 			id := c.decl(cf)
-			if id == nil || (d.Kind == "struct") != (id.Kind == "sinterface") {
+			if id == nil || (d.Kind == "struct" || d.Kind == "sinterface") != (id.Kind == "sinterface") {
 				return false
 			}
 		}
@@ -842,6 +907,9 @@ type UpdatePair struct {
 	Reader string // script reading every stored value under v2 ("" if none applies)
 	// Touched: some stored value belongs to a declaration the mutations changed.
 	Touched bool
+	// IfaceInheritanceLost: an interface declaration of v2 no longer inherits an
+	// interface it inherited in v1 (predicate of known finding FK3).
+	IfaceInheritanceLost bool
 }
 
 const UpdateAccount = 1
@@ -862,6 +930,18 @@ func GenUpdatePair(ch Chooser) *UpdatePair {
 		}
 		p.Mutations = append(p.Mutations, k)
 	}
+	for _, d := range v1.Decls {
+		if d.Kind != "sinterface" && d.Kind != "rinterface" {
+			continue
+		}
+		if d2 := v2.decl(d.Name); d2 != nil {
+			for _, cf := range d.Conforms {
+				if !v2.conformsTo(d2, cf) {
+					p.IfaceInheritanceLost = true
+				}
+			}
+		}
+	}
 	p.V1Code = v1.Source(false)
 	p.V2Code = v2.Source(true)
 
@@ -874,11 +954,11 @@ func GenUpdatePair(ch Chooser) *UpdatePair {
 			case "struct":
 				path := "/storage/v_" + d.Name
 				fmt.Fprintf(&b, "    a.storage.save(C.%s(), to: %s)\n", d.Name, path)
-				p.Items = append(p.Items, StoredItem{acct, path, d.Name, "struct", "", d.Conforms})
+				p.Items = append(p.Items, StoredItem{acct, path, d.Name, "struct", "", v1.closure(d)})
 			case "resource":
 				path := "/storage/v_" + d.Name
 				fmt.Fprintf(&b, "    a.storage.save(<- C.mk%s(), to: %s)\n", d.Name, path)
-				p.Items = append(p.Items, StoredItem{acct, path, d.Name, "resource", "", d.Conforms})
+				p.Items = append(p.Items, StoredItem{acct, path, d.Name, "resource", "", v1.closure(d)})
 			case "enum":
 				for _, cs := range d.Cases {
 					path := fmt.Sprintf("/storage/e_%s_%s", d.Name, cs)
@@ -938,12 +1018,7 @@ func GenUpdatePair(ch Chooser) *UpdatePair {
 			fmt.Fprintf(&body, "  if let v%d = %s.storage.borrow<%s>(from: %s) {\n    let r = v%d.chk()\n    if r != \"\" { out.append(\"%d:%s \".concat(r)) }\n",
 				i, acc, amp, it.Path, i, it.Acct, it.Path)
 			for _, cf := range it.Conforms {
-				still := false
-				for _, cf2 := range d2.Conforms {
-					if cf2 == cf {
-						still = true
-					}
-				}
+				still := v2.conformsTo(d2, cf)
 				if v2.decl(cf) == nil || !still {
 					// conformance is nominal: without the declaration in v2 the stored value
 					// cannot be an instance of the interface any more
